@@ -70,11 +70,11 @@ func zzGenBlock(cfg *zzGenCfg, depth int, inLoop, inFunc bool, ctr *int) []*zzSt
 		}
 		switch kind {
 		case "if", "ifelse", "ifelif":
-			st.cond = []string{"c0", "c1", "!c0"}[zzChoice("cond", 3)]
 			if kind == "ifelif" {
-				// if / else if / else: the first branch is a fixed probe, the else-if branch is generated
+				// if / else if / else: the first branch is a fixed probe, the else-if branch is generated;
+				// both condition variables are symbolic, so one choice of conditions covers all outcomes
 				st.kind = "if"
-				st.cond2 = []string{"c0", "c1", "!c0"}[zzChoice("cond", 3)]
+				st.cond, st.cond2 = "c0", "c1"
 				*ctr++
 				st.body = []*zzSt{{kind: "print", k: *ctr}}
 				st.elif = zzGenBlock(cfg, depth+1, inLoop, inFunc, ctr)
@@ -84,6 +84,7 @@ func zzGenBlock(cfg *zzGenCfg, depth int, inLoop, inFunc bool, ctr *int) []*zzSt
 				}
 				break
 			}
+			st.cond = []string{"c0", "c1", "!c0"}[zzChoice("cond", 3)]
 			st.body = zzGenBlock(cfg, depth+1, inLoop, inFunc, ctr)
 			if kind == "ifelse" {
 				st.kind = "if"
